@@ -299,6 +299,13 @@ def _mathk(ctx, prop):
 def _symm(ctx, prop):
     from .rules import symmetry
     out = []
+    if prop in ('C09', 'C11', 'C15'):
+        from .rules import limits
+        fl = {'C11': ('LambertConformalConic.hpp', 'AlbersEqualArea.cpp', 'AlbersEqualArea.hpp', 'LambertConformalConic.cpp'),
+              'C09': ('DAuxLatitude.hpp', 'DAuxLatitude.cpp'), 'C15': ('DAuxLatitude.hpp', 'DAuxLatitude.cpp')}[prop]
+        lim, nlim = limits.rule_LIM1(ctx, fl)
+        lim.floor('removable singularities judged', nlim, 6 if prop == 'C11' else 1)
+        out.append(lim)
     if prop == 'C11':
         from .rules import offsets
         l0, nl0 = offsets.rule_LON0(ctx, ('LambertConformalConic', 'AlbersEqualArea'))
